@@ -154,6 +154,7 @@ type world struct {
 	blocks int // blocks stored
 	links  int // links in all stored dag-pb blocks
 	bytes  int // bytes stored
+	output int // bytes a full read of the root legitimately yields beyond what is stored (fan-in)
 	names  []string
 
 	loads  atomic.Int64 // block loads since the last reset
@@ -224,8 +225,9 @@ func gone(codec uint64, tag string) cid.Cid { return cidOf(codec, []byte("never 
 func v0(c cid.Cid) cid.Cid { return cid.NewCidV0(c.Hash()) }
 
 // yardstick is the number of block loads / iterator steps / read calls one operation may spend:
-// ten times everything the case was given, plus ten.
-func (w *world) yardstick() int64 { return 10*int64(w.blocks+w.links) + 10 }
+// ten times everything the case was given (and every byte of output it legitimately has to
+// produce beyond that), plus ten.
+func (w *world) yardstick() int64 { return 10*int64(w.blocks+w.links+w.output) + 10 }
 
 // stepCap is the cap on pairs one iterator may yield: ten times the links of the DAG plus ten.
 func (w *world) stepCap() int64 { return 10*int64(w.links) + 10 }
